@@ -63,7 +63,7 @@ def evStep (st : State) (ev : Ev) : State := { st with sys := SdnsVerif.Model.Le
 
 def step (st : State) (w : List String) : State × String :=
   match w with
-  | ["mc", "new"] | ["mnz", "new"] | ["mttl", "new"] | ["nsttl", "new"] | ["lease", "new"] | ["rem", "new"] | ["repl", "new"] => (st, "ok")
+  | ["mc", "new"] | ["mnz", "new"] | ["mttl", "new"] | ["nsttl", "new"] | ["lease", "new"] | ["rem", "new"] | ["repl", "new"] | ["dpx", "new"] => (st, "ok")
   | ["ac", "new"] => ({ st with ac := {}, now := 0 }, "ok")
   | ["ac", "now", t] =>
     match parseI t with
@@ -136,6 +136,14 @@ def step (st : State) (w : List String) : State × String :=
       | some (c, k) => (st, s!"replaced=t cut={showT c} key={k}")
       | none => (st, "replaced=f none")
     | _, _ => (st, "bad-op")
+  | ["dpx", now, maxTTL, cut, soaTTL, soaMin, nsec] =>
+    match parseI now, maxTTL.toInt?, parseT cut, soaTTL.toNat?, soaMin.toNat?, parseList nsec with
+    | some now, some maxTTL, some cut, some soaTTL, some soaMin, some nsec =>
+      let bounds : List Int := [(soaTTL : Int) * sec, (soaMin : Int) * sec] ++ nsec.map (fun (t : Nat) => (t : Int) * sec)
+      match denialExpiry (10800 * sec) now (maxTTL * sec) cut bounds with
+      | some e => (st, toString e)
+      | none => (st, "none")
+    | _, _, _, _, _, _ => (st, "bad-op")
   | ["rem", stored, ttl, cut, now] =>
     match parseI stored, ttl.toInt?, parseT cut, parseI now with
     | some stored, some ttl, some cut, some now => (st, toString (remaining stored ttl cut now))
@@ -150,7 +158,7 @@ def step (st : State) (w : List String) : State × String :=
     | some q =>
       if kind == "purge" then (evStep st (.purge q), "ok") else
       if kind == "fin" then (st, "bad-op") else
-      let ev? : Option Ev := if kind == "start" then some (.start q) else if kind == "sub" then
+      let ev? : Option Ev := if kind == "start" then some (.start q) else if kind == "sub" || kind == "nsl" then
         (if st.sys.stack.isEmpty then some (.start q) else some (.substart q)) else if kind == "chase" then
         (if st.sys.stack.isEmpty then some (.start q) else some (.chase q)) else none
       match ev? with
